@@ -132,6 +132,16 @@ def language_lemmas():
     items.append(('twprge_regex_members_have_both_directions',
                   z3.Implies(z3.InRe(x, body['twprge_regex']),
                              z3.InRe(x, z3.Concat(fullre, digit, fullre, ns, fullre, digit, fullre, ew, fullre)))))
+    # all strings: a Twp/Rge that lacks a direction letter is in the language of the preprocessing pattern meant for it, for every
+    # township and range number of one to three digits (a range of exactly '2' included)
+    d13 = z3.Loop(digit, 1, 3)
+    nsU, ewU = z3.Union(z3.Re('N'), z3.Re('S')), z3.Union(z3.Re('E'), z3.Re('W'))
+    items.append(('no_direction_spellings_are_in_no_nswe', z3.Implies(z3.InRe(x, z3.Concat(z3.Re('T'), d13, z3.Re('-R'), d13)),
+                                                                       z3.InRe(x, body['pp_twprge_no_nswe']))))
+    items.append(('no_ns_spellings_are_in_no_nsr', z3.Implies(z3.InRe(x, z3.Concat(z3.Re('T'), d13, z3.Re('-R'), d13, ewU)),
+                                                               z3.InRe(x, body['pp_twprge_no_nsr']))))
+    items.append(('no_ew_spellings_are_in_no_ewt', z3.Implies(z3.InRe(x, z3.Concat(z3.Re('T'), d13, nsU, z3.Re('-R'), d13)),
+                                                               z3.InRe(x, body['pp_twprge_no_ewt']))))
     # all strings: a Twp/Rge whose numbers hold OCR look-alikes (S O I l ] |) — one to three characters each, a lone '2' excepted
     # for the range as documented — is in the language of the OCR pattern
     ocrc = z3.Union(digit, *[z3.Re(c) for c in 'SOIl]|'])
